@@ -330,6 +330,13 @@ impl<Front: SocketHandler> ConnectionH1<Front> {
                 && !parts.context.keep_alive_backend
             {
                 Self::terminate_close_delimited(kawa, stream_id);
+                // The end of the backend connection delimited this body, and
+                // nothing else in the message does: an HTTP/1.1 client needs the
+                // same delimiter, so its connection closes behind the response
+                // (left open it waits for more, until the timeout writes a 408
+                // into what it still takes for the body). An H2 frontend ends
+                // the stream with END_STREAM and does not look at this flag.
+                parts.context.closing = true;
                 self.timeout_container.cancel();
                 self.readiness.interest.remove(Ready::READABLE);
                 if let StreamState::Linked(token) = stream.state {
@@ -506,6 +513,8 @@ impl<Front: SocketHandler> ConnectionH1<Front> {
         {
             let kawa = &mut context.streams[stream_id].back;
             Self::terminate_close_delimited(kawa, stream_id);
+            // (see the other call site: an HTTP/1.1 client needs the delimiter too)
+            context.streams[stream_id].context.closing = true;
             self.timeout_container.cancel();
             self.readiness.interest.remove(Ready::READABLE);
         }
